@@ -2,7 +2,9 @@
 
 Spec: specs/fn/NameLang.tla (two DFAs over character classes).  Binding B3: TLC enumerates the class
 words, the harness concretises each class by several characters and calls the real
-auth.auth_utils functions, TLC judges every recorded call against the DFAs.
+auth.auth_utils functions and, for the account-creation call site (auth.auth.insert_new_user over an empty users table), whether
+a row was inserted with the string as username of a plain user / developer / service account or as secret name; TLC judges every
+recorded call against the DFAs.
 """
 from __future__ import annotations
 
@@ -39,6 +41,69 @@ def concretise(w, variant):
     return "".join(REPS[c][(variant + i) % len(REPS[c])] for i, c in enumerate(w))
 
 
+def account_creation():
+    """The real auth.auth.insert_new_user (check_valid_new_user + validate_credentials_secret_name_input + the INSERT) over a users
+    table that is empty: returns f(s) -> {plain, dev, sa, secret}: was a users row inserted with s as the username of a plain
+    user / developer / service account, and with s as the credentials secret name of a valid user."""
+    import asyncio
+
+    import aiomysql
+    import auth.auth as A
+    import gear.database as gdb
+    from auth.exceptions import AuthUserError
+
+    log = []
+
+    class Sess:
+        def execute(self, sql, args=None):
+            if sql.lstrip().upper().startswith(("START TRANSACTION", "COMMIT", "ROLLBACK", "BEGIN")):
+                return 0, None, None
+            if sql.lstrip().upper().startswith("SELECT"):
+                return 0, [], None
+            if sql.lstrip().upper().startswith("INSERT INTO USERS"):
+                log.append(tuple(args))
+                return 1, None, len(log)
+            raise RuntimeError(f"unexpected statement from insert_new_user: {sql[:80]}")
+
+        def commit(self):
+            pass
+
+        def rollback(self):
+            pass
+
+        def close(self):
+            pass
+
+    from vlib.vloop import VLoop
+
+    loop = VLoop()
+    db = gdb.Database()
+    db.pool = aiomysql.Pool(Sess)
+
+    def mk_tm():
+        from hailtop.aiotools import BackgroundTaskManager
+
+        db.connection_release_task_manager = BackgroundTaskManager()
+
+    loop.call_in_loop(mk_tm)
+
+    def inserted(username, login_id, dev, sa, secret):
+        n = len(log)
+        try:
+            loop.run_coro(A.insert_new_user(db, username, login_id, dev, sa, hail_identity="id", hail_credentials_secret_name=secret))
+            loop.run_until_idle()
+        except AuthUserError:
+            loop.run_until_idle()
+            return False
+        return len(log) == n + 1 and log[-1][1] == username and log[-1][6] == secret
+
+    def f(s):
+        return {"plain": inserted(s, "login@x", False, False, "ok-secret"), "dev": inserted(s, "login@x", True, False, "ok-secret"),
+                "sa": inserted(s, None, False, True, "ok-secret"), "secret": inserted("okuser", "login@x", False, False, s)}
+
+    return f
+
+
 def run(ctx):
     loader.install()
     from auth.auth_utils import is_valid_username, validate_credentials_secret_name_input
@@ -54,6 +119,8 @@ def run(ctx):
     cases = []
     seen = set()
 
+    inserter = account_creation()
+
     def call(w, s):
         if s in seen:
             return
@@ -64,7 +131,10 @@ def run(ctx):
             sec = True
         except AuthUserError:
             sec = False
-        cases.append({"w": w, "s": s, "user": u, "secret": sec})
+        c = {"w": w, "s": s, "user": u, "secret": sec}
+        if len(seen) % (4 if ctx.quick else 1) == 0 or len(w) <= 3:
+            c["ins"] = inserter(s)
+        cases.append(c)
 
     for w in words:
         for v in range(nvar):
@@ -80,7 +150,7 @@ def run(ctx):
     with open(env["NL_CASES"], "w") as f:
         for c in cases:
             # the concrete string travels as code points (TLC's JSON reader need not see control characters)
-            f.write(json.dumps({"w": c["w"], "user": c["user"], "secret": c["secret"]}) + "\n")
+            f.write(json.dumps({k: c[k] for k in ("w", "user", "secret", "ins") if k in c}) + "\n")
     tlc.evaluate(wd, "NameLangVerdict", env=env)
     verdict = json.loads((wd / "verdict.json").read_text())
     assert verdict["n"] == len(cases), (verdict["n"], len(cases))
@@ -92,9 +162,13 @@ def run(ctx):
         from_spec_user = None
         # classify by function and by the class of the offending deviation (root cause signature)
         cls_sig = ",".join(sorted(set(c["w"]) - {"lower", "digit", "hyphen", "dot"})) or "core"
-        ctx.violation(f"names:{cls_sig}:user={c['user']}:secret={c['secret']}",
+        site = ""
+        if "ins" in c and (len({c["user"], c["ins"]["plain"], c["ins"]["dev"], c["ins"]["sa"]}) > 1 or c["ins"]["secret"] != c["secret"]):
+            site = ":insert_new_user(" + ",".join(k for k in ("plain", "dev", "sa") if c["ins"][k] != c["user"]) + \
+                   ("secret" if c["ins"]["secret"] != c["secret"] else "") + ")"
+        ctx.violation(f"names:{cls_sig}:user={c['user']}:secret={c['secret']}{site}",
                       {"string": c["s"], "codepoints": [ord(x) for x in c["s"]], "classes": c["w"],
-                       "is_valid_username": c["user"], "secret_name_accepted": c["secret"]})
+                       "is_valid_username": c["user"], "secret_name_accepted": c["secret"], "account_creation_inserted_a_row": c.get("ins")})
     ctx.cov.update(states=2 * len(cases), transitions=len(cases), traces_validated_against_impl=len(cases),
                    evaluations=len(cases), distinct_nontrivial=len({tuple(c["w"]) for c in cases if len(c["w"]) >= 2}),
                    exhaustive=True,
